@@ -34,6 +34,10 @@ def unread_params(f):
             continue
         if p not in names:
             out.append((i, p))
+    # *args / **kwargs that are swallowed: accepted from the caller and neither read nor passed on (positions 1000 / 1001 in the table)
+    for pos, x in ((1000, a.vararg), (1001, a.kwarg)):
+        if x is not None and not x.arg.startswith("_") and x.arg not in names:
+            out.append((pos, ("*" if pos == 1000 else "**") + x.arg))
     return out
 
 
@@ -59,7 +63,7 @@ def table():
     return _T
 
 
-def apply(chk, rid, floor=5):
+def apply(chk, rid, floor=5, extra_modules=()):
     chk.rule(rid, "no option is silently ignored: every named parameter of the functions this property's rules read is read in the body "
              "(the parameters unread on the tree the rule was written for are excused by (module, function, position) in "
              "sa/unused_params.json)", floor=floor, shape_independent=True)
@@ -68,6 +72,10 @@ def apply(chk, rid, floor=5):
         from .core import AnalysisError
         raise AnalysisError("sa/unused_params.json missing")
     scope = closure(chk)
+    # entry points the user of this property calls directly (nothing in the repository calls them): every function of the named modules
+    for mn in extra_modules:
+        for q, _f in chk.repo.mod(mn).functions():
+            scope.setdefault(f"{mn}:{q}", "the property's public entry points")
     direct = set(chk.analysed_functions)
     from . import renames as _rn
     ref = _rn.table() or {}
@@ -84,7 +92,7 @@ def apply(chk, rid, floor=5):
                 # functions reached only through calls: report a parameter only when the reference tree has the same function with
                 # the same parameter (which it read: the table lists its unread ones) - an option that used to matter and is now ignored
                 rp = (ref.get(m.name, {}).get(q) or {}).get("params") or []
-                bad = [(i, p) for i, p in bad if p in rp]
+                bad = [(i, p) for i, p in bad if p in rp]          # ("**kwargs" is listed among the reference parameters under that spelling)
             short = m.name.replace("irispie.", "")
             if bad:
                 i, p = bad[0]
